@@ -1139,7 +1139,7 @@ def optimize_cons(p0, data, model_func, pts,
         p0, bounds = bnds, args = args,
         f_eqcons = eq_constraint, f_ieqcons = ieq_constraint,
         epsilon = epsilon,
-        iter = maxiter, full_output = True,
+        iter = 100 if maxiter is None else maxiter, full_output = True,
         disp = False)
     xopt, fopt, func_calls, grad_calls, warnflag = outputs
 
